@@ -109,6 +109,8 @@ where
         fn read(&mut self) -> BoxFuture<'_, IoResult<usize>>;
         // move `len` bytes from the pipe to the destination
         fn write(&mut self, len: usize, more: bool) -> BoxFuture<'_, IoResult<usize>>;
+        // shutdown the write side of the destination
+        fn shutdown(&mut self) -> IoResult<()>;
     }
     type BoxSpliceFn = Box<dyn SpliceFn + Send>;
     struct NullFn;
@@ -118,6 +120,9 @@ where
         }
         fn write(&mut self, _len: usize, _more: bool) -> BoxFuture<'_, IoResult<usize>> {
             unreachable!()
+        }
+        fn shutdown(&mut self) -> IoResult<()> {
+            Ok(())
         }
     }
     #[cfg(target_os = "linux")]
@@ -152,6 +157,11 @@ where
                     Ok(len)
                 }
                 .boxed()
+            }
+            fn shutdown(&mut self) -> IoResult<()> {
+                use std::os::unix::prelude::AsRawFd;
+                nix::sys::socket::shutdown(self.dfd.as_raw_fd(), nix::sys::socket::Shutdown::Write)
+                    .map_err(|e| std::io::Error::from_raw_os_error(e as i32))
             }
         }
 
@@ -220,6 +230,12 @@ where
         s.shutdown()
             .await
             .with_context(|| format!("shutdown frame {})", dst.name))?;
+    }
+
+    if have_rawfd {
+        pipe_fn
+            .shutdown()
+            .with_context(|| format!("shutdown {})", dst.name))?;
     }
 
     Ok(())
